@@ -550,10 +550,7 @@ def apply_mutator(case, g, m):
 
 class Lane(LaneBase):
     PROP = 'C06'
-    THEOREMS = ['CG.C06.export_fresh', 'CG.C06.heap_below', 'CG.C06.export_separated',
-                'CG.C06.derived_internal_separated', 'CG.C06.source_unchanged', 'CG.C06.exports_any_order',
-                'CG.C06.mutators_keep_cells_separated',
-                'CG.C06.to_dict_separated_partial', 'CG.C06.d9_shared', 'CG.C06.to_dict_counterexample']
+    THEOREMS = 'auto'
     AUDIT = 'CG/Audit/C06.lean'
     RULE = ('every exporting / deriving API of both classes x call order (first = cache-filling, later) x (mutate the '
             'first export before asking again, or not) x random graphs whose graph / node / edge metadata is absent, '
